@@ -45,41 +45,51 @@ def seeded_functions():
 
 SEEDED = seeded_functions()
 P = st.sampled_from([0.05, 0.3, 0.7])
+PB = st.sampled_from([0.0, 0.05, 0.3, 0.7, 1.0])  # with the boundary values
 Hspec = nets.net_spec(cls="H", kind="int", max_edges=7, max_size=4, min_edges=2, with_attrs=False, allow_empty=False, ids="auto")
+Hspec_any = st.sampled_from(["int", "str", "gap"]).flatmap(
+    lambda kd: nets.net_spec(cls="H", kind=kd, max_edges=7, max_size=4, min_edges=2, with_attrs=False, allow_empty=False, ids="auto"))
+KL = st.sampled_from([None, 0.5, 2.0])  # spring constant of the layouts
 
 
 def _fd(**kw):
     return st.fixed_dictionaries(kw)
 
 
+# every documented parameter of every seeded function is drawn, boundary values (0, 1, None, defaults) included
 PARAMS = {
-    "fast_random_hypergraph": _fd(n=st.integers(3, 8), ps=st.lists(P, min_size=1, max_size=3)),
-    "random_hypergraph": _fd(n=st.integers(3, 8), ps=st.lists(P, min_size=1, max_size=3)),
+    "fast_random_hypergraph": _fd(n=st.integers(3, 8), ps=st.lists(PB, min_size=1, max_size=3), order=st.sampled_from([None, None, 1, 2, 3])),
+    "random_hypergraph": _fd(n=st.integers(3, 8), ps=st.lists(PB, min_size=1, max_size=3), order=st.sampled_from([None, None, 1, 2, 3])),
     "chung_lu_hypergraph": _fd(k=st.lists(st.integers(1, 3), min_size=3, max_size=6)),
-    "dcsbm_hypergraph": _fd(k=st.lists(st.integers(1, 3), min_size=4, max_size=6)),
-    "watts_strogatz_hypergraph": _fd(n=st.integers(6, 10), d=st.integers(2, 3), l=st.integers(1, 2), p=st.sampled_from([0.3, 0.7, 1.0])),
+    "dcsbm_hypergraph": _fd(k=st.lists(st.integers(1, 3), min_size=4, max_size=6), mix=st.sampled_from([0.0, 0.5, 1.0])),
+    "watts_strogatz_hypergraph": _fd(n=st.integers(6, 10), d=st.integers(2, 3), l=st.integers(1, 2), p=st.sampled_from([0.0, 0.3, 0.7, 1.0])),
     "uniform_hypergraph_configuration_model": _fd(degs=st.lists(st.integers(1, 3), min_size=4, max_size=7), m=st.integers(2, 3)),
-    "uniform_HSBM": _fd(m=st.integers(2, 3), p_in=P, p_out=P),
-    "uniform_HPPM": _fd(n=st.sampled_from([6, 8]), m=st.integers(2, 3), k=st.sampled_from([1, 2]), epsilon=st.sampled_from([0.3, 0.8])),
-    "uniform_erdos_renyi_hypergraph": _fd(n=st.integers(4, 8), m=st.integers(2, 3), p=P, multiedges=st.booleans()),
-    "random_simplicial_complex": _fd(N=st.integers(4, 7), ps=st.lists(P, min_size=1, max_size=2)),
-    "flag_complex": _fd(gn=st.integers(4, 8), gs=st.integers(0, 50), ps=st.lists(st.sampled_from([0.3, 0.7]), min_size=1, max_size=1)),
-    "flag_complex_d2": _fd(gn=st.integers(4, 8), gs=st.integers(0, 50), p2=st.sampled_from([0.3, 0.7])),
-    "random_flag_complex": _fd(N=st.integers(4, 8), p=st.sampled_from([0.4, 0.7]), max_order=st.integers(2, 3)),
-    "random_flag_complex_d2": _fd(N=st.integers(4, 8), p=st.sampled_from([0.4, 0.7])),
+    "uniform_HSBM": _fd(m=st.integers(2, 3), p_in=PB, p_out=PB, sizes=st.sampled_from([[3, 3], [2, 4], [1, 5], [2, 2, 2]])),
+    "uniform_HPPM": _fd(n=st.sampled_from([6, 8]), m=st.integers(2, 3), k=st.sampled_from([1, 2, 4]), epsilon=st.sampled_from([0, 0.0, 0.3, 0.8, 1, 1.0]),
+                        rho=st.sampled_from([None, 0.5, 0.25, 0.75])),
+    "uniform_erdos_renyi_hypergraph": _fd(n=st.integers(4, 8), m=st.integers(2, 3), p=PB, multiedges=st.booleans(), p_type=st.sampled_from(["prob", "prob", "degree"])),
+    "random_simplicial_complex": _fd(N=st.integers(4, 7), ps=st.lists(PB, min_size=1, max_size=2)),
+    "flag_complex": _fd(gn=st.integers(4, 8), gs=st.integers(0, 50), ps=st.one_of(st.none(), st.lists(st.sampled_from([0.0, 0.3, 0.7, 1.0]), min_size=1, max_size=2)),
+                        max_order=st.integers(1, 3)),
+    "flag_complex_d2": _fd(gn=st.integers(4, 8), gs=st.integers(0, 50), p2=st.sampled_from([None, 0.0, 0.3, 0.7, 1.0])),
+    "random_flag_complex": _fd(N=st.integers(4, 8), p=st.sampled_from([0.4, 0.7, 1.0]), max_order=st.integers(1, 3)),
+    "random_flag_complex_d2": _fd(N=st.integers(4, 8), p=st.sampled_from([0.4, 0.7, 1.0])),
     "shuffle_hyperedges": _fd(spec=Hspec, p=st.sampled_from([0.5, 1.0])),
-    "random_layout": _fd(spec=Hspec),
-    "pairwise_spring_layout": _fd(spec=Hspec, k=st.sampled_from([None, 0.5])),
-    "barycenter_spring_layout": _fd(spec=Hspec, phantom=st.booleans()),
-    "weighted_barycenter_spring_layout": _fd(spec=Hspec, phantom=st.booleans()),
-    "bipartite_spring_layout": _fd(spec=Hspec),
-    "spectral_clustering": _fd(spec=nets.net_spec(cls="H", kind="int", max_edges=8, max_size=4, min_edges=2, with_attrs=False, allow_empty=False, ids="auto"), k=st.integers(2, 4)),
+    "random_layout": _fd(spec=Hspec_any, center=st.sampled_from([None, [1.0, 2.0]])),
+    "pairwise_spring_layout": _fd(spec=Hspec_any, k=KL),
+    "barycenter_spring_layout": _fd(spec=Hspec_any, phantom=st.booleans(), k=KL),
+    "weighted_barycenter_spring_layout": _fd(spec=Hspec_any, phantom=st.booleans(), k=KL),
+    "bipartite_spring_layout": _fd(spec=Hspec_any, k=KL),
+    "spectral_clustering": _fd(spec=nets.net_spec(cls="H", kind="int", max_edges=8, max_size=4, min_edges=2, with_attrs=False, allow_empty=False, ids="auto"), k=st.integers(2, 4),
+                               max_iter=st.sampled_from([None, 1, 3])),
 }
 
 
 def call_args(name, p):
     """(args, kwargs) for xgi.<name>; None when this parameter tuple is inadmissible"""
     if name in ("fast_random_hypergraph", "random_hypergraph"):
+        if p.get("order") is not None:
+            return (p["n"], p["ps"][0]), {"order": p["order"]}
         return (p["n"], p["ps"]), {}
     if name == "chung_lu_hypergraph":
         k = {i: d for i, d in enumerate(p["k"])}
@@ -88,7 +98,8 @@ def call_args(name, p):
         k = {i: d for i, d in enumerate(p["k"])}
         g = {i: i % 2 for i in k}
         tot = sum(k.values())
-        om = np.array([[tot / 3, tot / 6], [tot / 6, tot / 3]])
+        off = p.get("mix", 0.5) * tot / 3
+        om = np.array([[tot / 2 - off, off], [off, tot / 2 - off]])
         return (k, dict(k), g, dict(g), om), {}
     if name == "watts_strogatz_hypergraph":
         return (p["n"], p["d"], 2, p["l"], p["p"]), {}
@@ -96,17 +107,24 @@ def call_args(name, p):
         return ({i: d for i, d in enumerate(p["degs"])}, p["m"]), {}
     if name == "uniform_HSBM":
         m = p["m"]
-        Pm = np.full((2,) * m, p["p_out"])
-        Pm[(0,) * m] = Pm[(1,) * m] = p["p_in"]
-        return (6, m, Pm, [3, 3]), {}
+        sizes = p.get("sizes", [3, 3])
+        b = len(sizes)
+        Pm = np.full((b,) * m, p["p_out"])
+        for i in range(b):
+            Pm[(i,) * m] = p["p_in"]
+        return (sum(sizes), m, Pm, sizes), {}
     if name == "uniform_HPPM":
-        return (p["n"], p["m"], p["k"], p["epsilon"]), {}
+        kw = {} if p.get("rho") is None else {"rho": p["rho"]}
+        return (p["n"], p["m"], p["k"], p["epsilon"]), kw
     if name == "uniform_erdos_renyi_hypergraph":
-        return (p["n"], p["m"], p["p"]), {"multiedges": p["multiedges"]}
+        return (p["n"], p["m"], p["p"]), {"multiedges": p["multiedges"], "p_type": p.get("p_type", "prob")}
     if name == "random_simplicial_complex":
         return (p["N"], p["ps"]), {}
     if name == "flag_complex":
-        return (nx.gnp_random_graph(p["gn"], 0.6, seed=p["gs"]),), {"ps": p["ps"]}
+        kw = {"ps": p["ps"]}
+        if p.get("max_order") is not None:
+            kw["max_order"] = p["max_order"]
+        return (nx.gnp_random_graph(p["gn"], 0.6, seed=p["gs"]),), kw
     if name == "flag_complex_d2":
         return (nx.gnp_random_graph(p["gn"], 0.6, seed=p["gs"]),), {"p2": p["p2"]}
     if name == "random_flag_complex":
@@ -119,16 +137,21 @@ def call_args(name, p):
         if not orders or orders[-1] < 1:
             return None
         return (H, orders[-1], p["p"]), {}
-    if name in ("random_layout", "bipartite_spring_layout"):
-        return (H,), {}
-    if name == "pairwise_spring_layout":
-        return (H,), {"k": p["k"]}
+    if name == "random_layout":
+        return (H,), ({} if p.get("center") is None else {"center": p["center"]})
+    lk = {} if p.get("k") is None else {"k": p["k"]}
+    if name in ("bipartite_spring_layout", "pairwise_spring_layout"):
+        return (H,), lk
     if name in ("barycenter_spring_layout", "weighted_barycenter_spring_layout"):
-        return (H,), {"return_phantom_graph": p["phantom"]}
+        return (H,), dict(lk, return_phantom_graph=p["phantom"])
     if name == "spectral_clustering":
-        if list(H.nodes.isolates()) or H.num_nodes <= p["k"]:
+        H.remove_nodes_from(list(H.nodes.isolates()))  # construction rather than rejection: the function needs non-zero degrees
+        if H.num_nodes < 3:
             return None
-        return (H,), {"k": p["k"]}
+        kw = {"k": min(p["k"], H.num_nodes - 1)}
+        if p.get("max_iter") is not None:
+            kw["max_iter"] = p["max_iter"]
+        return (H,), kw
     return None
 
 
